@@ -15,7 +15,7 @@
            -O0 and -O1; regression exemplars of the recorded findings.
 """
 from lib import *
-import prog, gen_c, coexec, csemx
+import prog, gen_c, coexec, csemx, matrix
 
 TRUSTED = ["Lean 4 kernel; axioms allowed: propext, Classical.choice, Quot.sound",
            "specification: CV/Mos.lean (6502 semantics), CV/GenFlat.spec + CV/GenStruct.sem (8-bit wrap-around statement semantics), CV/GenStruct.stepG (line machine with first-occurrence label lookup), CV/CSem.lean (C reading for the search)",
@@ -369,6 +369,20 @@ def run(chk):
                 chk.sample({"program": src[:500]})
             csemx.check_compiled(chk, m, src, p, r, "c01", nstates, seed=stable_hash(src), level=level,
                                  sig_fn=lambda kind: classify(src, kind), compile_fn=lambda t, lv=level: h.compile(t, lv))
+    # ---- the deterministic idiom matrices (tools/matrix.py): every block sets its own operands ----
+    for p in matrix.all_programs():
+        try:
+            gen_c.program_tokens(p)
+        except gen_c.Unsupported:
+            chk.count("matrix_outside_csem"); continue
+        for level in (0, 1):
+            r = h.compile(p.text, level)
+            if r["status"] != "ok":
+                chk.count("matrix_rejected_" + p.matrix); break
+            chk.case(key=(p.text, level), nontrivial=True)
+            chk.count("matrix_" + p.matrix)
+            csemx.check_compiled(chk, m, p.text, p, r, "c01m", 1, seed=1, level=level,
+                                 sig_fn=lambda kind, t=p.text: classify(t, kind), compile_fn=lambda t, lv=level: h.compile(t, lv))
     h.close(); m.close()
     return chk.finish(level="proof", obligations=obligations, trusted_base=TRUSTED,
                       checker_cmd="cd /verif/lean && lake build CV.Props.C01 && lake env lean .lake/audit/C01_audit.lean",
